@@ -29,6 +29,27 @@ func GenC05(seed uint64) *Plan {
 		sp.InitLen = g.between(8, 14)
 	}
 	g.depGraph(p, uint64(g.between(4, min(12, sp.InitLen-2))), 0)
+	if !reorgRun && g.chance(25) {
+		// the same graph on two sources, built by the repository's own
+		// loadTasks in half of these runs; the first referenced integration may
+		// index only the second source (then the dependent must do nothing on
+		// the first one)
+		s2 := *sp
+		s2.Name = "s1"
+		if g.chance(60) {
+			s2.ChainID = uint64(g.between(1, 9999))
+		}
+		p.Sources = append(p.Sources, s2)
+		for _, d := range p.Decls {
+			d.Sources = append(d.Sources, model.SrcRef{Name: "s1", Start: d.Sources[0].Start})
+		}
+		if len(p.Decls) == 3 && g.chance(50) {
+			p.Decls[0].Sources = p.Decls[0].Sources[1:]
+		}
+		p.Idle = nil
+		p.SharedPool = g.chance(60)
+		p.Checks["permute_integrations"] = true
+	}
 	g.transientFaults(p)
 	p.Faults.Stall = false
 	p.Faults.JumpPerMille = 0
@@ -141,6 +162,18 @@ func c05OnCommit(w *World, ps *pairState, ci *fakepg.CommitInfo) {
 	}
 	n := curs[len(curs)-1].num
 	for _, dn := range deps {
+		onThisSource := false
+		for _, o := range w.pairs {
+			if o.decl.Name == dn && o.src == ps.src {
+				onThisSource = true
+			}
+		}
+		if !onThisSource {
+			// the referenced integration does not index this source at all:
+			// it never records any block of it, so the dependent must do nothing
+			w.violate("dependent-ahead", "pair %s recorded block %d although the integration it references (%s) does not index source %s and so never records that block for the same source", ps.key, n, dn, ps.src.plan.Name)
+			continue
+		}
 		for _, o := range w.pairs {
 			if o.decl.Name != dn || o.src != ps.src {
 				continue
